@@ -19,7 +19,17 @@
    counter is the number of references to it from roots and from referenced compounds.
 
    Named deviations (must be caught by TLC, non-vacuity): BugAppend (APPEND forgets to count the new
-   element), BugRemGuard (Remove decrements the counter of an unreferenced compound). *)
+   element), BugRemGuard (Remove decrements the counter of an unreferenced compound).
+
+   Code shape switch MapRemoveDropsFirst.  vm.go (tree aafec21 + verif hooks) executes REMOVE on a map as
+   "Remove(key); Remove(value); Drop(index)".  TLC shows (MC_Q1.cfg, 9 actions) that this order breaks
+   NoUnderCount: if the removed value holds - directly or through other items - the last reference to the
+   map itself, Remove(value) recurses into the map, which still contains the entry, and removes the key
+   a second time.  Reproduced on the real VM (script c84a104bd010d2).  MapRemoveDropsFirst = TRUE is the
+   order "Drop(index); Remove(key); Remove(value)" (what CLEARITEMS does), for which all configurations
+   pass.  The .cfg files carry the shape of the code under verification (FALSE); tools/checks/c12.py
+   verifies the other shape exhaustively when the configured one yields a counterexample, and replays
+   the counterexample on the real VM, where the abstract level decides. *)
 EXTENDS Integers, Sequences, FiniteSets, FiniteSetsExt, TLC
 
 CONSTANTS N,          \* compound ids 1..N
